@@ -138,6 +138,9 @@ def sites(prog, b):
             out.append(("unwrap", c))
         elif nm == "span" and "annotate_snippets" in (c.pretty or "") and len(c.args) == 2:
             out.append(("snippet-span", c))
+        elif nm == "offset" and ("nom::traits::Offset" in (c.pretty or "") or "Offset" in (c.trait or "")) and len(c.args) == 2:
+            # address subtraction `second.as_ptr() - first.as_ptr()`: underflows unless the second slice lies inside (after the start of) the first
+            out.append(("ptr-offset", c))
         elif nm in STR_MUTATORS and ("str" in (c.pretty or "") or "String" in (c.pretty or "")) and "core::str" in (c.pretty or "") + "alloc::string" * ("String" in (c.pretty or "")):
             out.append(("str-offset", c))
     for bb, t in b.terms():
@@ -213,6 +216,32 @@ def judge_site(prog, b, P, kind, c):
         full = sig + (" where " + clo if clo else "")
         ok = bool(offs) and offs[0][0] != "range" and P.bd(base, offs[0], c.bb)
         return ok, full, "offset %s" % ("is a boundary" if ok else "not proved a boundary")
+    if kind == "ptr-offset":
+        base = S.operand(c.args[0])
+        sub = S.operand(c.args[1])
+        sig = "offset(%s, %s)" % (S.show(base), S.show(sub))
+        clo = var_closure(P, [base, sub])
+        full = sig + (" where " + clo if clo else "")
+        # certificate: the second slice was obtained from the first one by slicing / trimming in this body
+        ok = False
+        pl = F.op_place(c.args[1])
+        root0 = b.alias_root(c.args[0]) if F.op_place(c.args[0]) else None
+        seen = set()
+        work = [pl["l"]] if pl else []
+        while work and not ok:
+            l = work.pop()
+            if l in seen:
+                continue
+            seen.add(l)
+            if root0 is not None and b.alias_root(l) == root0 and l != (pl or {}).get("l"):
+                ok = True
+                break
+            for d in b.defs().get(l, []):
+                if d[0] == "call" and d[2].name() in ("index", "trim", "trim_start", "trim_end", "get", "split_at", "strip_prefix", "deref", "as_ref", "unwrap", "unwrap_or"):
+                    work += [F.op_place(a)["l"] for a in d[2].args[:1] if F.op_place(a)]
+                elif d[0] == "assign":
+                    work += [q["l"] for q, kk in F.rv_places(d[3])]
+        return ok, full, "the second slice %s derived from the first" % ("is" if ok else "is not shown to be")
     if kind == "bounds":
         bb, t = c
         ln_op, ix_op = t["ops"][0], t["ops"][1]
